@@ -161,6 +161,11 @@ impl ShortFileName {
         if idx == 0 {
             return Err(FilenameError::FilenameEmpty);
         }
+        if sfn.contents[0] == 0xE5 {
+            // On disk a first byte of 0xE5 means 'deleted entry', so a name
+            // that really starts with that character is stored as 0x05.
+            sfn.contents[0] = 0x05;
+        }
         Ok(sfn)
     }
 
@@ -196,6 +201,8 @@ impl core::fmt::Display for ShortFileName {
                     write!(f, ".")?;
                     printed += 1;
                 }
+                // a leading 0x05 stands for 0xE5 (see `create_from_str`)
+                let c = if i == 0 && c == 0x05 { 0xE5 } else { c };
                 // converting a byte to a codepoint means you are assuming
                 // ISO-8859-1 encoding, because that's how Unicode was designed.
                 write!(f, "{}", c as char)?;
